@@ -41,6 +41,7 @@ type Checker struct {
 	nPaths   int64
 	nUnroll  int64
 	nCached  int64
+	nOver    int64
 }
 
 type unrollEntry struct {
@@ -103,6 +104,7 @@ func BuildQuery(dom *Domain, defs *Defs, extra []*T, bad []*T) (text string, val
 		all = append(all, defs.Bodies()...)
 	}
 	assume := dom.Assumptions(all...)
+	assume = append(assume, GroundAxioms(all...)...)
 	all = append(all, assume...)
 	d := NewDecls()
 	if defs != nil {
@@ -171,6 +173,20 @@ func (cx *Checker) newObl(rel string, c *Case) *core.Obl {
 	}
 }
 
+// overBudget: the unrolling exceeded the path budget: the program is NOT
+// covered. The obligation is kept (status unknown) under the prefix
+// "bnd-over-budget/" so that it is never part of a claim "bnd/<relation>/*";
+// it is listed in the evidence among the unclaimed undischarged obligations.
+func (cx *Checker) overBudget(o *core.Obl) *core.Obl {
+	o.Name = "bnd-over-budget/" + strings.TrimPrefix(o.Name, "bnd/")
+	o.Status = core.Unknown
+	o.Output = fmt.Sprintf("path limit (%d) reached: the program is not covered", cx.MaxPaths)
+	cx.mu.Lock()
+	cx.nOver++
+	cx.mu.Unlock()
+	return o
+}
+
 func discharge(o *core.Obl, how string) *core.Obl {
 	o.Status = core.Discharged
 	o.Solver = how
@@ -181,9 +197,7 @@ func discharge(o *core.Obl, how string) *core.Obl {
 func (cx *Checker) pathObl(rel string, c *Case, dom *Domain, defs *Defs, extra []*T, un *Unrolled, bad func(pc *T, rr *RunResult) *T) *core.Obl {
 	o := cx.newObl(rel, c)
 	if un.Trunc {
-		o.Status = core.Unknown
-		o.Output = fmt.Sprintf("path limit (%d) reached: the program is not covered", cx.MaxPaths)
-		return o
+		return cx.overBudget(o)
 	}
 	var bads []*T
 	for _, p := range un.Paths {
@@ -495,8 +509,7 @@ func (cx *Checker) Trace(c *Case) []*core.Obl {
 	o.Detail = fmt.Sprintf("%d joint paths, %d nodes, dump %s", len(outs), len(c.Prog.Nodes), oneLine(c.Prog.Dump))
 	switch {
 	case trunc:
-		o.Status = core.Unknown
-		o.Output = "path limit reached"
+		cx.overBudget(o)
 	case len(bads) == 0:
 		discharge(o, "syntactic")
 	default:
@@ -550,9 +563,7 @@ func (cx *Checker) Joint(dom *Domain, specs []runSpec, stop func(i int, r *Path,
 func (cx *Checker) jointObl(rel string, c *Case, dom *Domain, defs *Defs, outs []PathOut, trunc bool, bad func(pc *T, runs []*RunResult) *T) *core.Obl {
 	o := cx.newObl(rel, c)
 	if trunc {
-		o.Status = core.Unknown
-		o.Output = fmt.Sprintf("path limit (%d) reached", cx.MaxPaths)
-		return o
+		return cx.overBudget(o)
 	}
 	var bads []*T
 	for _, p := range outs {
@@ -959,8 +970,7 @@ func (cx *Checker) Events(c *Case) []*core.Obl {
 	finish := func(o *core.Obl, pick func(*evOut) (*T, string)) {
 		o.Detail = fmt.Sprintf("%d joint paths, %d nodes", len(outs), len(c.Prog.Nodes))
 		if trunc {
-			o.Status = core.Unknown
-			o.Output = "path limit reached"
+			cx.overBudget(o)
 			return
 		}
 		var bads []*T
